@@ -525,6 +525,37 @@ class Facts:
         self.foreign_enums = {e["path"]: {v["discr"]: v["name"] for v in e["variants"]} for e in self.j.get("foreign_enums", [])}
         self.impls = self.j["impls"]
         self.fns = {f["path"]: f for f in self.j["fns"]}
+        self._normalise_async_shape()
+
+    def _normalise_async_shape(self):
+        """`fn f(..) -> impl Future<Output = T> { async move { .. } }` is the desugaring of `async fn f(..) -> T`: a body that does
+        nothing but build its own async block and return it is read as an async fn (the coroutine holds the code in both forms)"""
+        for path, sig in self.fns.items():
+            out = sig.get("output") or ""
+            if sig.get("is_async") or not (out.startswith("impl ") and "Future<Output = " in out):
+                continue
+            b = self.by_path.get(path)
+            if b is None:
+                continue
+            built, plain = 0, True
+            for blk in b.j["blocks"]:
+                if blk.get("cleanup"):
+                    continue
+                if blk["term"]["k"] not in ("drop", "return", "goto"):
+                    plain = False
+                for st in blk["stmts"]:
+                    if st["k"] == "assign":
+                        rv = st["rv"]
+                        if (st["place"]["l"] == 0 and not st["place"]["p"] and rv.get("k") == "aggregate" and rv.get("ak") == "coroutine"
+                                and (rv.get("def") or "").startswith(path + "::{closure")):
+                            built += 1
+                        else:
+                            plain = False
+                    elif st["k"] not in ("fake_read", "live", "dead", "nop", "mention", "ascribe"):
+                        plain = False
+            if plain and built == 1:
+                sig["is_async"] = True
+                sig["async_written_as"] = "fn returning its own async block"
 
     def body(self, path):
         return self.by_path.get(path)
